@@ -18,7 +18,7 @@ void* TemporalStorage::assignComponent(World& world, Entity entity, ComponentId 
     auto& command = emplaceItem(entity, Action::kAssignComponent);
     command.type_info = &component_info;
     command.component_id = id;
-    command.ptr = allocate(static_cast<uint32_t>(component_info.size));
+    command.ptr = allocate(static_cast<uint32_t>(component_info.size), static_cast<uint32_t>(component_info.align));
     if (!skip_constructor && component_info.functions.create) {
         component_info.functions.create(command.ptr, entity, world);
     }
@@ -63,18 +63,23 @@ void TemporalStorage::clear() {
     total_size_ = 0u;
 }
 
-std::byte* TemporalStorage::allocate(uint32_t size) {
-    if (chunks_.empty() || chunks_.back().free_space < size) {
-        if (target_chunk_size_ < size) {
-            target_chunk_size_ = size;
+std::byte* TemporalStorage::allocate(uint32_t size, uint32_t align) {
+    // the chunk memory is only aligned for fundamental types: keep room to align the block by hand
+    const uint32_t max_size = size + (align > 1u ? align - 1u : 0u);
+    if (chunks_.empty() || chunks_.back().free_space < max_size) {
+        if (target_chunk_size_ < max_size) {
+            target_chunk_size_ = max_size;
         }
         chunks_.emplace_back(target_chunk_size_);
     }
     auto& chunk = chunks_.back();
     const auto offset = chunk.capacity - chunk.free_space;
-    chunk.free_space -= size;
-    total_size_ += size;
-    return chunk.data.get() + offset;
+    std::byte* ptr = chunk.data.get() + offset;
+    const auto misalign = align > 1u ? static_cast<uint32_t>(reinterpret_cast<uintptr_t>(ptr) % align) : 0u;
+    const uint32_t padding = misalign > 0u ? align - misalign : 0u;
+    chunk.free_space -= size + padding;
+    total_size_ += size + padding;
+    return ptr + padding;
 }
 
 TemporalStorage::ActionInfo& TemporalStorage::emplaceItem(Entity entity, Action action) {
